@@ -6,6 +6,7 @@ TARGETS = {
 PROPS = {
     "C20": dict(
         targets=["c20_capi"],
+        shard_mult={"thorough": 3},
         level="exploration",
         rule="lib/amgcl.cpp is compiled into the executable. A case is an SPD M-matrix system on a generated graph (n=20..300, int indices, rows sorted or shuffled), a replacement matrix on the same graph, "
              "a right-hand side / initial guess, and a parameter set for the run-time composite (coarsening/relaxation/solver types and their fields, generated from the C14 table with sane ranges, coarse_enough 2..25) "
